@@ -41,6 +41,9 @@ typedef std::function<void(A_&, O_&)> Fn;
 template<typename T> Jones<T> rdJ (A_& A);
 template<> Jones<double> rdJ<double> (A_& A) { auto a=A.cd(), b=A.cd(), c=A.cd(), d=A.cd(); return Jones<double>(a,b,c,d); }
 template<> Jones<float> rdJ<float> (A_& A) { auto a=A.cf(), b=A.cf(), c=A.cf(), d=A.cf(); return Jones<float>(a,b,c,d); }
+// promoted operands are built component by component, never through the library's own converting constructors
+static std::complex<double> cdbl (const std::complex<float>& z) { return std::complex<double>((double) z.real(), (double) z.imag()); }
+static Jones<double> promote (const Jones<float>& a) { return Jones<double>(cdbl (a.j00), cdbl (a.j01), cdbl (a.j10), cdbl (a.j11)); }
 static const QBasis H = Hermitian; static const QBasis U = Unitary;
 
 int main ()
@@ -48,9 +51,14 @@ int main ()
   std::map<std::string, Fn> ops;
 
   // Jones<float> (op) Jones<double> and the reverse
-  OP("mp.jones") { Jones<float> a = rdJ<float>(A); Jones<double> b = rdJ<double>(A); Jones<double> ad (a);
+  OP("mp.jones") { Jones<float> a = rdJ<float>(A); Jones<double> b = rdJ<double>(A); Jones<double> ad = promote (a);
+    Jones<float> bf (b); Jones<float> bf2 (std::complex<float>((float) b.j00.real(), (float) b.j00.imag()), std::complex<float>((float) b.j01.real(), (float) b.j01.imag()),
+                                          std::complex<float>((float) b.j10.real(), (float) b.j10.imag()), std::complex<float>((float) b.j11.real(), (float) b.j11.imag()));
+    Jones<double> a_conv (a); Jones<double> a_asg; a_asg = a;
+    O.put (a_conv); O.put (a_asg); O.put (promote (bf));
     O.put (Jones<double>(a+b)); O.put (Jones<double>(a-b)); O.put (Jones<double>(a*b));
     O.put (Jones<double>(b+a)); O.put (Jones<double>(b-a)); O.put (Jones<double>(b*a));
+    O.put (ad); O.put (ad); O.put (promote (bf2));
     O.put (Jones<double>(ad+b)); O.put (Jones<double>(ad-b)); O.put (Jones<double>(ad*b));
     O.put (Jones<double>(b+ad)); O.put (Jones<double>(b-ad)); O.put (Jones<double>(b*ad)); };
   // Jones<double> scaled by complex<float>
@@ -58,23 +66,23 @@ int main ()
     O.put (Jones<double>(a*c)); O.put (Jones<double>(c*a)); O.put (Jones<double>(a/c));
     O.put (Jones<double>(a*cd)); O.put (Jones<double>(cd*a)); O.put (Jones<double>(a/cd)); };
   // quaternions
-  OP("mp.quat") { float a0=A.f(), a1=A.f(), a2=A.f(), a3=A.f(); double b0=A.d(), b1=A.d(), b2=A.d(), b3=A.d(); Quaternion<float,U> a (a0,a1,a2,a3); Quaternion<double,U> b (b0,b1,b2,b3); Quaternion<double,U> ad (a);
-    O.put (Quaternion<double,U>(a+b)); O.put (Quaternion<double,U>(a-b)); O.put (Quaternion<double,U>(a*b)); O.put (Quaternion<double,U>(b*a));
-    O.put (Quaternion<double,U>(ad+b)); O.put (Quaternion<double,U>(ad-b)); O.put (Quaternion<double,U>(ad*b)); O.put (Quaternion<double,U>(b*ad)); };
+  OP("mp.quat") { float a0=A.f(), a1=A.f(), a2=A.f(), a3=A.f(); double b0=A.d(), b1=A.d(), b2=A.d(), b3=A.d(); Quaternion<float,U> a (a0,a1,a2,a3); Quaternion<double,U> b (b0,b1,b2,b3); Quaternion<double,U> ad ((double) a0, (double) a1, (double) a2, (double) a3);
+    O.put (Quaternion<double,U>(a)); O.put (Quaternion<double,U>(a+b)); O.put (Quaternion<double,U>(a-b)); O.put (Quaternion<double,U>(a*b)); O.put (Quaternion<double,U>(b*a));
+    O.put (ad); O.put (Quaternion<double,U>(ad+b)); O.put (Quaternion<double,U>(ad-b)); O.put (Quaternion<double,U>(ad*b)); O.put (Quaternion<double,U>(b*ad)); };
   OP("mp.biquat") { std::complex<float> a0=A.cf(), a1=A.cf(), a2=A.cf(), a3=A.cf(); std::complex<double> b0=A.cd(), b1=A.cd(), b2=A.cd(), b3=A.cd();
-    Quaternion<std::complex<float>,H> a (a0,a1,a2,a3); Quaternion<std::complex<double>,H> b (b0,b1,b2,b3); Quaternion<std::complex<double>,H> ad (a);
-    O.put (Quaternion<std::complex<double>,H>(a*b)); O.put (Quaternion<std::complex<double>,H>(b*a));
-    O.put (Quaternion<std::complex<double>,H>(ad*b)); O.put (Quaternion<std::complex<double>,H>(b*ad)); };
+    Quaternion<std::complex<float>,H> a (a0,a1,a2,a3); Quaternion<std::complex<double>,H> b (b0,b1,b2,b3); Quaternion<std::complex<double>,H> ad (cdbl (a0), cdbl (a1), cdbl (a2), cdbl (a3));
+    O.put (Quaternion<std::complex<double>,H>(a)); O.put (Quaternion<std::complex<double>,H>(a*b)); O.put (Quaternion<std::complex<double>,H>(b*a));
+    O.put (ad); O.put (Quaternion<std::complex<double>,H>(ad*b)); O.put (Quaternion<std::complex<double>,H>(b*ad)); };
   // Minkowski forms
   OP("mp.minkowski") { Vector<4,float> a; for (unsigned i=0;i<4;i++) a[i]=A.f(); Vector<4,double> b; for (unsigned i=0;i<4;i++) b[i]=A.d();
-    Vector<4,double> ad (a);
-    O.put ((double) Minkowski::inner(a,b)); O.put ((double) Minkowski::inner(b,a));
+    Vector<4,double> ad; for (unsigned i=0;i<4;i++) ad[i] = (double) a[i];
+    O.put (Vector<4,double>(a)); O.put ((double) Minkowski::inner(a,b)); O.put ((double) Minkowski::inner(b,a));
     O.put (Matrix<4,4,double>(Minkowski::outer(a,b))); O.put (Matrix<4,4,double>(Minkowski::outer(b,a)));
-    O.put ((double) Minkowski::inner(ad,b)); O.put ((double) Minkowski::inner(b,ad));
+    O.put (ad); O.put ((double) Minkowski::inner(ad,b)); O.put ((double) Minkowski::inner(b,ad));
     O.put (Matrix<4,4,double>(Minkowski::outer(ad,b))); O.put (Matrix<4,4,double>(Minkowski::outer(b,ad))); };
   // outer / Kronecker products
   OP("mp.outer") { Vector<3,float> a; for (unsigned i=0;i<3;i++) a[i]=A.f(); Vector<2,double> b; for (unsigned i=0;i<2;i++) b[i]=A.d();
-    Vector<3,double> ad (a);
+    Vector<3,double> ad; for (unsigned i=0;i<3;i++) ad[i] = (double) a[i];
     O.put (Matrix<3,2,double>(outer(a,b))); O.put (Matrix<2,3,double>(outer(b,a)));
     O.put (Matrix<3,2,double>(outer(ad,b))); O.put (Matrix<2,3,double>(outer(b,ad))); };
   OP("mp.direct") { Matrix<2,2,float> a; for (unsigned i=0;i<2;i++) for (unsigned j=0;j<2;j++) a[i][j]=A.f();
@@ -84,7 +92,7 @@ int main ()
     O.put (Matrix<4,6,double>(direct(ad,b))); O.put (Matrix<4,6,double>(direct(b,ad))); };
   // Jones<double> * Quaternion<float>, transform of Stokes<double> by Jones<float>
   OP("mp.pauli") { Jones<double> j = rdJ<double>(A); float q0=A.f(), q1=A.f(), q2=A.f(), q3=A.f(); Quaternion<float,H> q (q0,q1,q2,q3); Quaternion<double,H> qd (q);
-    double s0=A.d(), s1=A.d(), s2=A.d(), s3=A.d(); Stokes<double> s (s0,s1,s2,s3); Jones<float> jf = rdJ<float>(A); Jones<double> jfd (jf);
+    double s0=A.d(), s1=A.d(), s2=A.d(), s3=A.d(); Stokes<double> s (s0,s1,s2,s3); Jones<float> jf = rdJ<float>(A); Jones<double> jfd = promote (jf);
     // (Jones<double> * Quaternion<float> converts the quaternion to a Jones<float> first, i.e. rounds in single
     //  precision by design, so it is not a promotion-consistency case)
     O.put (Stokes<double>(transform (s, jf)));
